@@ -318,6 +318,30 @@ def charpath {n} (D : AMat Ext n) (incDiag incInf : Bool) : Option Ext × Option
   let vals := (cs.map fun p => D.get p.1 p.2).filter fun x => incInf || x.isFin
   (meanExt vals, meanExt (vals.map Ext.inv))
 
+/-- `np.maximum`; on ties the first argument -/
+def Ext.max (a b : Ext) : Ext := if Ext.lt a b then b else a
+
+/-- what `np.array(np.ma.masked_where(...).max(axis=1))` holds for a row whose cells are all masked: the default fill value
+of a float masked array, `1e20` -/
+def maskedFill : Ext := .fin 100000000000000000000
+
+/-- the cells of row `i` that `charpath` leaves unmasked: the diagonal cell only with `include_diagonal`, infinite cells
+only with `include_infinite` -/
+def eccCells {n} (D : AMat Ext n) (incDiag incInf : Bool) (i : Fin n) : List Ext :=
+  (((List.finRange n).filter fun j => incDiag || i ≠ j).map fun j => D.get i j).filter fun x => incInf || x.isFin
+
+/-- `ecc[i]` of `charpath`: the largest unmasked cell of row `i` -/
+def eccOf {n} (D : AMat Ext n) (incDiag incInf : Bool) (i : Fin n) : Ext :=
+  match eccCells D incDiag incInf i with
+  | [] => maskedFill
+  | x :: xs => xs.foldl Ext.max x
+
+/-- `radius = np.min(ecc)`, `diameter = np.max(ecc)`; `none` for `n = 0` (NumPy raises on an empty reduction) -/
+def radiusDiameter {n} (D : AMat Ext n) (incDiag incInf : Bool) : Option (Ext × Ext) :=
+  match (List.finRange n).map (eccOf D incDiag incInf) with
+  | [] => none
+  | e :: es => some (es.foldl Ext.min e, es.foldl Ext.max e)
+
 /-- `sum over i ≠ j of 1/D[i,j]  /  (n*n - n)`; `none` = 0/0 -/
 def meanInvOff {n} (D : AMat Ext n) : Option Ext :=
   if n < 2 then none else
@@ -447,7 +471,11 @@ def step (line : String) : String :=
       let incDiag ← (← lookup kv "diag").toNat?
       let incInf ← (← lookup kv "inf").toNat?
       let (l, e) := charpath D (incDiag != 0) (incInf != 0)
-      some s!"lambda={showOptExt l} eff={showOptExt e}"
+      let ecc := ",".intercalate ((List.finRange n).map fun i => (eccOf D (incDiag != 0) (incInf != 0) i).str)
+      let rd := match radiusDiameter D (incDiag != 0) (incInf != 0) with
+        | some (r, d) => s!"radius={r.str} diameter={d.str}"
+        | none => "radius=nan diameter=nan"
+      some s!"lambda={showOptExt l} eff={showOptExt e} ecc={if n = 0 then "-" else ecc} {rd}"
     | "effbin" =>
       let A ← parseMatWith parseRat n (← lookup kv "A")
       match efficiencyBin A with
